@@ -75,8 +75,9 @@ impl RootHandler {
 //@sigsub /Result<\(\)>/ => Result<(), Status2>
     ensures
         // Ok: the approval flow said yes for the transaction as it was signed, and the node was asked to sign exactly that
-        r.is_ok() ==> exists|flags: Seq<bool>, prev_outs: Seq<TxOut>, opaths: Seq<DerivationPath>|
-            approval_of(self.approver, self.node, final(streamed).psbt.inner.unsigned_tx, flags, prev_outs, opaths) == Ok::<bool, Status>(true)
+        // (the segwit flags handed to the check are the ones the streamed decoder computed: unit psbt_stream)
+        r.is_ok() ==> final(streamed).segwit_flags@ == old(streamed).segwit_flags@ && exists|prev_outs: Seq<TxOut>, opaths: Seq<DerivationPath>|
+            approval_of(self.approver, self.node, final(streamed).psbt.inner.unsigned_tx, old(streamed).segwit_flags@, prev_outs, opaths) == Ok::<bool, Status>(true)
             && signed_unchecked(self.node, final(streamed).psbt.inner.unsigned_tx, prev_outs),                       //[C08.handler.ok-means-approved-and-signed]
 //@sub /let psbt = &mut streamed\.psbt\.inner;/ =>
 //@sub /let opaths = extract_psbt_output_paths\(&psbt\);/ => let opaths = vx_output_paths(&streamed.psbt.inner);
